@@ -726,7 +726,7 @@ func (c *Client) onPUBREC() error {
 	c.orderedTxs.Received++
 	verifPoint("pubrec.saved")
 
-	err = c.write(nil, c.pendingAck)
+	err = c.writeFromRead(c.pendingAck)
 	if err != nil {
 		return err // keeps pendingAck to retry
 	}
